@@ -16,11 +16,18 @@
 //       in flight on P1 (its PTTL on R1 is held: the push path owns the slot lock); then the scan batch runs.
 //       -> "collide kind= n= target= cmd_reply= gates=<scan><pttl><restore> final_read= dst_has_key= src_has_key= trace="
 //
+//   multi mode=traffic|directed parts=2|3 ndst=1|2 conns= active= out= [seed= nkeys= clients= ops= lat= kind=del|sdiffstore]
+//       the source proxy P1 runs `parts` migrating tasks AT ONCE (consecutive sub-ranges of 0-8191), part j to proxy P2 (ndst=1) or
+//       alternately to P2 / P3 (ndst=2). traffic: random clients on every range through every proxy, like `mig`.
+//       directed: every task's scanner is held at its first SCAN (keys still on the source); for each part a deleting command for a
+//       key of that part goes through its importing proxy, then the key is read back; then the scanners run, commit, final reads.
+//       -> "multi ok|timeout mode= parts= ndst= committed= client_ops= errors= del_replies=<r;..> reads=<r;..> final_reads=<r;..> trace="
+//
 // Topology (nothing real is opened): P1 127.0.1.1:7001 / R1 127.0.1.1:6001 (source), P2 127.0.2.1:7002 / R2 127.0.2.1:6002
 // (destination); see net.rs for the fake network, store.rs for the storing Redis stand-in, scen.rs for the scenarios and
 // the trace format (JSON lines: meta, epoch, inv, hop, rep, redis, p2p, phase, commit, hold, final; every event has a
 // global `seq` and a wall-clock `us` that is informational only).
-use crate::scen::{run_collide, run_mig, run_witness, Params};
+use crate::scen::{run_collide, run_mig, run_multi, run_witness, Params};
 use crate::util::bulk_cmd;
 use undermoon::protocol::RespPacket;
 use undermoon::proxy::command::{requires_blocking_migration, Command};
@@ -51,6 +58,7 @@ pub fn run_case(_rt: &tokio::runtime::Runtime, line: &str) -> String {
         "mig" => run_mig(&Params::parse(&toks[1..])),
         "witness" => run_witness(&Params::parse(&toks[1..])),
         "collide" => run_collide(&Params::parse(&toks[1..])),
+        "multi" => run_multi(&Params::parse(&toks[1..])),
         k => format!("unknown-kind {}", k),
     }
 }
